@@ -216,6 +216,18 @@ def r5(cx):
             tg = b.term(r).get("target")
             after = b.reachable(tg) | {tg} if tg is not None else set()
             bad += [p for p in plans if p in after]
+        # what is executed was planned by THIS call: the DataFrame handed to collect / execute_stream derives from this body's planning call only - not from
+        # a field of the engine or a map look-up (a remembered DataFrame stays bound to the table registration of the request that planned it)
+        for r in runs:
+            o = M.operand_origins(b, b.term(r)["args"][0], at=(r, M.T))
+            calls = {x[1][1] for x in o if x[0] == "call"}
+            foreign = sorted(c for c in calls if not _is_plan(c))
+            fields = sorted({x[2] for x in o if x[0] in ("upvar", "arg") and x[2].startswith(".") and str(x[1]) in ("self", "1")})
+            if any(_is_plan(c) for c in calls) and not foreign and not fields:
+                cx.passed(fk, "executes-this-calls-plan", [b.sp(r)])
+            else:
+                cx.violation(fk, "executes-this-calls-plan", "%s: the plan that is executed can come from %s rather than from this call's planning: a remembered plan scans the chunk set of the "
+                             "request that planned it and silently skips chunks flushed or compacted since" % (b.sp(r), foreign or fields or "somewhere else"), [b.sp(r)])
         if bad and not protected:
             cx.violation(fk, "planned-once", "%s: the statement is planned again after an execution of it was started: the second plan resolves `metrics` against whatever chunk set is "
                          "registered by then (another query's), and its rows are returned as this query's result" % b.sp(bad[0]), [b.sp(bad[0])])
